@@ -1667,9 +1667,14 @@ class Memoer(Tymee):
 
         memo = bytearray()
         for i in range(cnt):  # iterate in numeric order, items are insertion ordered
+            if i not in grams:  # gram numbered >= cnt present but gram i missing
+                return None
             memo.extend(grams[i])  # extend memo with gram body part at gram i
 
-        return memo.decode()  # convert bytearray to str
+        try:
+            return memo.decode()  # convert bytearray to str
+        except UnicodeDecodeError as ex:
+            raise hioing.MemoerError(f"Undecodable memo.") from ex
 
 
 
@@ -1684,7 +1689,16 @@ class Memoer(Tymee):
             # if mid then grams dict at mid must not be empty
             if not mid in self.counts:  # missing first gram so skip
                 continue
-            memo = self.fuse(self.rxgs[mid], self.counts[mid])
+            try:
+                memo = self.fuse(self.rxgs[mid], self.counts[mid])
+            except hioing.MemoerError as ex:  # complete but invalid so drop
+                logger.error("Invalid Memoer memo %s from %s.\n %s.", mid,
+                             self.sources[mid], ex)
+                memo = None
+                del self.rxgs[mid]
+                del self.counts[mid]
+                del self.sources[mid]
+                del self.vids[mid]
             if memo is not None:  # allows for empty "" memo for some src
                 self.rxms.append((memo, self.sources[mid], self.vids[mid]))
                 del self.rxgs[mid]
